@@ -183,6 +183,9 @@ def add_cand_edges(
         node_frame_dict = _compute_node_frame_dict(cand_graph)
 
     frames = sorted(node_frame_dict.keys())
+    if not frames:
+        # no detections at all: nothing to link
+        return
     prev_frame = frames[0]
     prev_node_ids = node_frame_dict[prev_frame]
     prev_kdtree = create_kdtree(cand_graph, prev_node_ids)
